@@ -214,12 +214,22 @@ def eval_pred(body, env, roles=None, max_steps=500):
     b = 0
     ret = None
     known_ret = False
+    store = {}
+    base_env = env
     for _ in range(max_steps):
         blk = body.blocks[b]
+        env = _StoreEnv(base_env, store)
         for s in blk["stmts"]:
             if s["k"] == "assign" and s["place"]["l"] == 0 and not s["place"]["p"]:
                 ret = eval_expr(body.expr_of_rvalue(s["rv"]), env, roles)
                 known_ret = True
+            elif s["k"] == "assign" and not s["place"]["p"] and len(body.defs.get(s["place"]["l"], [])) > 1:
+                # a temporary set on several paths (`matches!`, `||` chains): remember its value on this path
+                v = eval_expr(body.expr_of_rvalue(s["rv"]), env, roles)
+                if v is None:
+                    store.pop(s["place"]["l"], None)
+                else:
+                    store[s["place"]["l"]] = v
         t = blk["term"]
         k = t["k"]
         if k == "return":
